@@ -14,8 +14,11 @@
 //!   run <r> <j> <delay_seed> <max_us> <spinners> ok <len> <fnv> <nevents> | run .. panic|hang <msg>
 //!   file multi-<r> k      (only when the bytes differ from the single-thread bytes)
 //!   file events-<r> k     (hook H4b lines: begin j n / pull w i / send w i / recv i / end)
-//!   planted-panic <lit>   last case: a query with the literal -2147483648, on which the operations
-//!                         panic in a build with overflow checks (abs overflow, a finding of C13)
+//!   planted-panic <lit>   last cases: query files with the one-literal query -2147483648, on which the
+//!                         operations panic in a build with overflow checks (negate overflow, a finding
+//!                         of C13), evaluated with j = 1, 2, 3, 4, 32 under a 3 s watchdog.  Before
+//!                         repair F10 (repo_patches/F10-multiquery-drop-sender.patch) the runs with
+//!                         j > 1 never returned (`hang`); now they panic like j = 1.
 use crate::common::*;
 use crate::gen::*;
 use crate::rng::Rng;
@@ -194,8 +197,8 @@ enum Outcome {
     Hang,
 }
 
-/// runs operate_on_queries on a clone of the model in a thread of its own (watchdog: a worker that
-/// dies leaves the main thread blocked in recv for ever)
+/// runs operate_on_queries on a clone of the model in a thread of its own (watchdog: before repair
+/// F10 a worker that died left the main thread blocked in recv for ever)
 fn evaluate(model: &Ddnnf, op: Op, j: u16, path: &Path, timeout: Duration) -> Outcome {
     let mut d = model.clone();
     d.max_worker = j;
@@ -366,8 +369,9 @@ pub fn run(_kind: &str, ctx: &Ctx, out: &mut dyn Write) {
                 Outcome::Panic(m) => { writeln!(s, "impl single panic {}", short(m)).unwrap(); None }
                 Outcome::Hang => { writeln!(s, "impl single hang").unwrap(); hung = true; None }
             };
-            // an operation that panics on a parsed query would kill workers and block the main
-            // thread: only files that fail in the parser are run multi-threaded in that case
+            // an operation that panics on a parsed query (none is known but the planted one below) is
+            // reported from the single-thread run alone: only files that fail in the parser are run
+            // multi-threaded in that case
             let parse_failed = guarded(|| ddnnife::parser::parse_queries_file(&qpath)).is_err();
             if single_bytes.is_some() || parse_failed {
                 // ---- the multi-thread runs
@@ -433,53 +437,71 @@ pub fn run(_kind: &str, ctx: &Ctx, out: &mut dyn Write) {
     std::env::remove_var("VERIF_DELAY_SEED");
     std::env::remove_var("VERIF_DELAY_MAX_US");
     std::env::remove_var("VERIF_EVENT_LOG");
-    // ---- planted: an operation that panics on one query of the file
+    // ---- planted: an operation that panics on one query of the file (first: the file of finding K13)
     if !hung {
         if let Some(model) = vp9.as_ref() {
-            let content = b"1\n2 3\n-2147483648\n4\n5 -6\n".to_vec();
-            std::fs::write(&qpath, &content).unwrap();
-            for op in [Op::Count, Op::Sat] {
-                let opname = if op == Op::Count { "count" } else { "sat" };
-                let mut s = String::new();
-                writeln!(s, "case c15-planted-{} C15", opname).unwrap();
-                writeln!(s, "info model={} a query on which the operation panics when overflow checks are on", model.name).unwrap();
-                writeln!(s, "n {}", model.n).unwrap();
-                writeln!(s, "op {}", opname).unwrap();
-                writeln!(s, "planted-panic -2147483648").unwrap();
-                s.push_str(&dump_circuit(&model.ddnnf));
-                s.push_str(&bytes_block("queries", &content));
-                if let Ok(items) = guarded(|| ddnnife::parser::parse_queries_file(&qpath)) {
-                    writeln!(s, "impl parsed ok {}", items.len()).unwrap();
-                    writeln!(s, "file parsed {}", items.len()).unwrap();
-                    for (i, q) in items.iter() {
-                        writeln!(s, "| {} {}", i, join(q)).unwrap();
+            let files: [(&str, &[u8]); 6] = [
+                ("minimal", b"1\n-2147483648\n2"),
+                ("middle", b"1\n2 3\n-2147483648\n4\n5 -6\n"),
+                ("only", b"-2147483648\n"),
+                ("first", b"-2147483648\n1\n2 3\n\n4\n"),
+                ("last", b"1\n2 3\n\n4\n-2147483648"),
+                ("twice", b"-2147483648\n1\n2\n3\n-2147483648\n4\n5\n6\n"),
+            ];
+            'planted: for (fname, content) in files.iter() {
+                std::fs::write(&qpath, content).unwrap();
+                for op in [Op::Count, Op::Sat] {
+                    let opname = if op == Op::Count { "count" } else { "sat" };
+                    let mut s = String::new();
+                    writeln!(s, "case c15-planted-{}-{} C15", fname, opname).unwrap();
+                    writeln!(s, "info model={} a query on which the operation panics when overflow checks are on", model.name).unwrap();
+                    writeln!(s, "n {}", model.n).unwrap();
+                    writeln!(s, "op {}", opname).unwrap();
+                    writeln!(s, "planted-panic -2147483648").unwrap();
+                    s.push_str(&dump_circuit(&model.ddnnf));
+                    s.push_str(&bytes_block("queries", content));
+                    if let Ok(items) = guarded(|| ddnnife::parser::parse_queries_file(&qpath)) {
+                        writeln!(s, "impl parsed ok {}", items.len()).unwrap();
+                        writeln!(s, "file parsed {}", items.len()).unwrap();
+                        for (i, q) in items.iter() {
+                            writeln!(s, "| {} {}", i, join(q)).unwrap();
+                        }
                     }
-                }
-                let wd = Duration::from_secs(3);
-                let single = evaluate(&model.ddnnf, op, 1, &qpath, wd);
-                let single_bytes = match &single {
-                    Outcome::Ok(b) => {
-                        writeln!(s, "impl single ok {} {:016x}", b.len(), fnv64(b)).unwrap();
-                        s.push_str(&bytes_block("single", b));
-                        Some(b.clone())
-                    }
-                    Outcome::Panic(m) => { writeln!(s, "impl single panic {}", short(m)).unwrap(); None }
-                    Outcome::Hang => { writeln!(s, "impl single hang").unwrap(); None }
-                };
-                for (r, j) in [1u16, 2, 4].iter().enumerate() {
-                    match evaluate(&model.ddnnf, op, *j, &qpath, wd) {
+                    let wd = Duration::from_secs(3);
+                    let single = evaluate(&model.ddnnf, op, 1, &qpath, wd);
+                    let single_bytes = match &single {
                         Outcome::Ok(b) => {
-                            writeln!(s, "run {} {} 0 0 0 ok {} {:016x} 0", r, j, b.len(), fnv64(&b)).unwrap();
-                            if Some(&b) != single_bytes.as_ref() {
-                                s.push_str(&bytes_block(&format!("multi-{}", r), &b));
+                            writeln!(s, "impl single ok {} {:016x}", b.len(), fnv64(b)).unwrap();
+                            s.push_str(&bytes_block("single", b));
+                            Some(b.clone())
+                        }
+                        Outcome::Panic(m) => { writeln!(s, "impl single panic {}", short(m)).unwrap(); None }
+                        Outcome::Hang => { writeln!(s, "impl single hang").unwrap(); None }
+                    };
+                    for (r, j) in [1u16, 2, 3, 4, 32].iter().enumerate() {
+                        match evaluate(&model.ddnnf, op, *j, &qpath, wd) {
+                            Outcome::Ok(b) => {
+                                writeln!(s, "run {} {} 0 0 0 ok {} {:016x} 0", r, j, b.len(), fnv64(&b)).unwrap();
+                                if Some(&b) != single_bytes.as_ref() {
+                                    s.push_str(&bytes_block(&format!("multi-{}", r), &b));
+                                }
+                            }
+                            Outcome::Panic(m) => writeln!(s, "run {} {} 0 0 0 panic {}", r, j, short(&m)).unwrap(),
+                            Outcome::Hang => {
+                                // the blocked threads stay behind: one hanging run per case is enough
+                                writeln!(s, "run {} {} 0 0 0 hang", r, j).unwrap();
+                                hung = true;
+                                break;
                             }
                         }
-                        Outcome::Panic(m) => writeln!(s, "run {} {} 0 0 0 panic {}", r, j, short(&m)).unwrap(),
-                        Outcome::Hang => writeln!(s, "run {} {} 0 0 0 hang", r, j).unwrap(),
                     }
+                    writeln!(s, "end").unwrap();
+                    out.write_all(s.as_bytes()).unwrap();
                 }
-                writeln!(s, "end").unwrap();
-                out.write_all(s.as_bytes()).unwrap();
+                if hung {
+                    // a build that blocks on the first file blocks on the others, too
+                    break 'planted;
+                }
             }
         }
     }
